@@ -982,6 +982,129 @@ func C05(c *core.Ctx) {
 	c05Split(c)
 	c05Threshold(c)
 	c05Extremum(c)
+	c05RoundsOnce(c)
+}
+
+// c05RoundsOnce — C05-R6: an operation of package num rounds once. Divide (and
+// Multiply by anything but an integer constant such as factor100) rounds its
+// result to the receiver's precision; a precision-lowering rescale of that
+// result in the same function (Rescale, RescaleDown, Downscale, RescaleRange)
+// rounds an already rounded number — 0.9049 → 0.905 → 0.91 where the exact
+// quotient rounds to 0.90. Raising the precision afterwards (RescaleUp,
+// Upscale) rounds nothing.
+func c05RoundsOnce(c *core.Ctx) {
+	p := c.P
+	c.Rule("C05-R6", "an operation of package num does not round an already rounded result again", 2)
+	pk := p.Pkg("num")
+	if pk == nil {
+		return
+	}
+	info := pk.TypesInfo
+	exactFactor := func(e ast.Expr) bool {
+		v := pkgVar(info, e)
+		if v == nil {
+			return false
+		}
+		// var factor100 = MakeAmount(100, 0) / Amount{100, 0}: an integer
+		for _, file := range pk.Syntax {
+			for _, d := range file.Decls {
+				gd, ok := d.(*ast.GenDecl)
+				if !ok {
+					continue
+				}
+				for _, sp := range gd.Specs {
+					vs, ok := sp.(*ast.ValueSpec)
+					if !ok {
+						continue
+					}
+					for i, nm := range vs.Names {
+						if info.Defs[nm] != types.Object(v) || i >= len(vs.Values) {
+							continue
+						}
+						val := ast.Unparen(vs.Values[i])
+						var expArg ast.Expr
+						switch x := val.(type) {
+						case *ast.CallExpr:
+							if fn := core.Callee(info, x); fn != nil && fn.Name() == "MakeAmount" && len(x.Args) == 2 {
+								expArg = x.Args[1]
+							}
+						case *ast.CompositeLit:
+							if len(x.Elts) == 2 {
+								expArg = x.Elts[1]
+								if kv, ok := expArg.(*ast.KeyValueExpr); ok {
+									expArg = kv.Value
+								}
+							}
+						}
+						if expArg != nil {
+							if tv, ok := info.Types[expArg]; ok && tv.Value != nil && tv.Value.String() == "0" {
+								return true
+							}
+						}
+					}
+				}
+			}
+		}
+		return false
+	}
+	n := 0
+	for _, fd := range p.Funcs(pk) {
+		if p.IsTestFile(fd.Decl.Pos()) {
+			continue
+		}
+		ld := core.NewLocalDefs(info, fd.Decl.Body)
+		// does the expression carry the result of a rounding operation?
+		var rounded func(e ast.Expr, depth int) string
+		rounded = func(e ast.Expr, depth int) string {
+			if depth > 4 {
+				return ""
+			}
+			for _, src := range valueSources(info, ld, e, 0) {
+				call, ok := ast.Unparen(src).(*ast.CallExpr)
+				if !ok {
+					continue
+				}
+				fn := core.Callee(info, call)
+				switch {
+				case isAmountMethod(fn, "Divide"):
+					return types.ExprString(call)
+				case isAmountMethod(fn, "Multiply"):
+					if len(call.Args) == 1 && !exactFactor(call.Args[0]) {
+						return types.ExprString(call)
+					}
+				case isAmountMethod(fn, "RescaleUp"), isAmountMethod(fn, "Upscale"), isAmountMethod(fn, "MatchPrecision"), isAmountMethod(fn, "Invert"), isAmountMethod(fn, "Negate"):
+					// exact operations hand on what their receiver carries
+					if r := rounded(core.RecvExpr(call), depth+1); r != "" {
+						return r
+					}
+				}
+			}
+			return ""
+		}
+		k := 0
+		ast.Inspect(fd.Decl.Body, func(m ast.Node) bool {
+			call, ok := m.(*ast.CallExpr)
+			if !ok {
+				return true
+			}
+			fn := core.Callee(info, call)
+			lowers := isAmountMethod(fn, "Rescale") || isAmountMethod(fn, "RescaleDown") || isAmountMethod(fn, "Downscale") || isAmountMethod(fn, "RescaleRange")
+			if !lowers {
+				return true
+			}
+			re := core.RecvExpr(call)
+			if re == nil {
+				return true
+			}
+			n++
+			k++
+			r := rounded(re, 0)
+			c.Ob("C05-R6", fmt.Sprintf("%s#%s%d", fd.Name(), fn.Name(), k), call.Pos(), r == "",
+				fmt.Sprintf("%s applies %s to the result of %s, which is already rounded to its receiver's precision: the value is rounded twice, and a quotient such as 0.9049… becomes 0.905 and then 0.91 where one rounding gives 0.90", fd.Name(), fn.Name(), r))
+			return true
+		})
+	}
+	c.Extra("C05-R6_precision_lowering_calls_in_num", n)
 }
 
 // c05Extremum: RescaleUp hands back the amount at the larger of its exponent
@@ -1645,6 +1768,50 @@ func c05Threshold(c *core.Ctx) {
 			return cmp != 0
 		}
 	}
+	// the decision is taken from Amount.Compare of the value and the threshold (which brings
+	// both to their common precision first) — in either orientation
+	mirrored := map[*ast.CallExpr]bool{}
+	nCmp := 0
+	{
+		var valueParam *types.Var
+		if sig := fd.Obj.Type().(*types.Signature); sig.Params().Len() == 1 {
+			valueParam = sig.Params().At(0)
+		}
+		isThreshold := func(e ast.Expr) bool {
+			f := core.FieldOf(info, ast.Unparen(e))
+			return f != nil && f.Name() == "threshold" && core.RootVar(info, e) == recv
+		}
+		ldc := core.NewLocalDefs(info, fd.Decl.Body)
+		is := func(e ast.Expr, pred func(ast.Expr) bool) bool {
+			for _, src := range valueSources(info, ldc, e, 0) {
+				if !pred(src) {
+					return false
+				}
+			}
+			return true
+		}
+		isValue := func(e ast.Expr) bool { return valueParam != nil && core.VarOf(info, e) == valueParam }
+		ast.Inspect(fd.Decl.Body, func(n ast.Node) bool {
+			call, ok := n.(*ast.CallExpr)
+			if !ok || !isAmountMethod(core.Callee(info, call), "Compare") || len(call.Args) != 1 {
+				return true
+			}
+			re := core.RecvExpr(call)
+			switch {
+			case is(re, isValue) && is(call.Args[0], isThreshold):
+				nCmp++
+			case is(re, isThreshold) && is(call.Args[0], isValue):
+				nCmp++
+				mirrored[call] = true
+			}
+			return true
+		})
+		c.Ob("C05-R4", fd.Name()+"#by-Compare", fd.Decl.Pos(), nCmp > 0,
+			"the threshold rule does not take its decision from Amount.Compare of the value and the threshold: Compare brings both to their common precision first; any other route (the sign of value.Subtract(threshold), raw values) compares at one operand's precision — Subtract rounds the threshold to the value's decimals, so Max(12.5%) accepts 13%")
+		if nCmp == 0 {
+			return
+		}
+	}
 	var ops []types.Object
 	for o := range rel {
 		if o != nil {
@@ -1669,6 +1836,9 @@ func c05Threshold(c *core.Ctx) {
 				}
 				if call, ok := e.(*ast.CallExpr); ok {
 					if fn := core.Callee(info, call); isAmountMethod(fn, "Compare") {
+						if mirrored[call] {
+							return -cmp, true
+						}
 						return cmp, true
 					}
 				}
